@@ -7,6 +7,7 @@ import (
 	"bytes"
 	"fmt"
 	"runtime"
+	"strings"
 	"testing"
 
 	"pgregory.net/rapid"
@@ -182,6 +183,43 @@ func runHostile(t *testing.T, prop, check string, oracle func(*CaseBytes) *Failu
 			}
 		}
 		Col.MarkExhaustive("every count/length prefix of every type (all registered keys of frames/extended messages) set to max, max-1, 0x7ffffff0, 0x80000000, 0x00ffffff with <=16 bytes following")
+	})
+	// (1b) every discriminator of every holder type overwritten with blank / zero / 0xff / near-miss values
+	t.Run("discriminators", func(t *testing.T) {
+		for _, tn := range MyTypes() {
+			ts := Types[tn]
+			if ts.DynIndex() < 0 {
+				continue
+			}
+			tb := TableOf(ts, &ts.Fields[ts.DynIndex()])
+			for k := range tb.Order {
+				r := Render(Skeleton(tn, k), &RenderOpts{Spans: true})
+				for _, sp := range r.Spans {
+					if sp.Kind != "disc" || strings.Count(sp.Path, ".") != 1 {
+						continue
+					}
+					orig := r.Bytes[sp.Off : sp.Off+sp.Len]
+					variants := [][]byte{bytesOf(' ', sp.Len), bytesOf(0, sp.Len), bytesOf(0xff, sp.Len), bytesOf('0', sp.Len), bytesOf('9', sp.Len)}
+					for i := 0; i < sp.Len; i++ {
+						for _, b := range []byte{' ', 0, orig[i] ^ 1, orig[i] + 1} {
+							v := append([]byte{}, orig...)
+							v[i] = b
+							variants = append(variants, v)
+						}
+					}
+					for _, nb := range variants {
+						w := append([]byte{}, r.Bytes...)
+						copy(w[sp.Off:], nb)
+						c := &CaseBytes{Type: tn, W: w}
+						hostileRecord(prop, c, []string{"enumerated-discriminator"}, false)
+						if !Direct(t, prop, check, "disc/"+tn, c, oracle) {
+							break
+						}
+					}
+				}
+			}
+		}
+		Col.MarkExhaustive("every registered key of every frame/extended message with its discriminator overwritten by blank, zero, 0xff, '000', '999' and every single-byte near miss")
 	})
 	// (2) every truncation of one valid encoding per type
 	t.Run("truncations", func(t *testing.T) {
